@@ -331,13 +331,14 @@ pub fn run(args: &Args, rep: &mut Report) {
             // real parallel requesters: C01's scenarios on the thread engine; the after-kill / after-stop clauses
             // allow exactly one pick in flight
             let rt = crate::th::runtime(3);
+            let tl = ractor::thread_local::ThreadLocalActorSpawner::new();
             let seeds: Vec<u64> = match args.replay {
                 Some(s) => vec![s],
                 None => args.indices().map(|i| args.scenario_seed(i)).collect(),
             };
             for seed in seeds {
                 crate::watch_begin(seed);
-                let o = super::c01::run_one_th(seed, &rt);
+                let o = super::c01::run_one_th(seed, &rt, &tl);
                 crate::watch_end();
                 let has_req = o.recs.iter().any(|r| matches!(&r.ev, Ev::Ret { op, .. } if *op == "kill" || *op == "stop"));
                 rep.scenario(o.nontrivial && has_req, o.sig);
